@@ -85,12 +85,50 @@ SHORT = {
  "C19-d": ("per-unit CPU bound checked on the value truncated to 32 bits", "cpu = 2^32 + in-range value"),
  "C20-c": ("expected version taken from the fetched chain data only", "deployment-updated event arrives while the fetch is in flight"),
  "C20-d": ("'no lease' rejection moved to submission time; the later path answers nobody", "submission queued while a lease existed, lease lost before the fetch answer"),
+ "C01-e": ("deposit settles first; on overdraft it returns success: the tenant is debited, nothing is recorded", "deposit as the first action after the funds ran out"),
+ "C01-f": ("payout grouped by payee on a range-value copy: the second payment of the same payee is zeroed but never sent", "one provider holds leases on two groups of a deployment that is then closed"),
+ "C02-e": ("closed payments still count towards the account's block rate (rate summed before the open filter)", "an account with a closed and an open payment, settled over a gap"),
+ "C02-f": ("settlement clock not advanced while no payment is open; re-lease is paid for the idle blocks", "lease closed, idle blocks, new lease on the same deployment"),
+ "C03-e": ("Account.ValidateBasic rejects an open account with zero balance (also used by ValidateGenesis)", "export while an account is open and exactly empty"),
+ "C03-f": ("AccountClose marks an account closed whose own settlement just found it overdrawn", "close-deployment is the first action after the funds ran out"),
+ "C04-e": ("losing-bid scan at lease creation bounded by OrderMaxBids: the last bid of a full order stays open", "order holding OrderMaxBids+1 bids, a bid that does not sort last is accepted"),
+ "C04-f": ("account-closed hook made two-pass over &group of the range variable: only the last group's orders are wound down", "deployment with >=2 live groups ends"),
+ "C05-e": ("deposit settles first and ignores the overdraft: coins written into an overdrawn account", "deposit as the first action after the funds ran out"),
+ "C05-f": ("DeploymentIDFromEscrowAccount parses dseq with Atoi: hooks do not recognise dseq >= 2^63", "deployment with dseq > MaxInt64 is closed or overdrawn"),
+ "C06-e": ("certificate serial parsed with automatic base detection: \"010\" revokes certificate 8", "revoke with a zero-padded serial while the owner holds the octal reading"),
+ "C06-f": ("close-bid no longer checks that lease and bid are active: a former provider re-pauses the tenant's group", "close-bid for a bid that already ended"),
+ "C07-e": ("per-order bid count kept in process memory (survives rolled-back transactions, lost on restart)", ">20 failed bids, or nodes with different process histories"),
+ "C07-f": ("one bank transfer per payee while ranging over a map: transfer events in map order", "account with payments to >=2 owners paid out at once"),
+ "C08-e": ("in-place attestation merge with binary search on a slice it appends to: withdrawn value survives", "re-signature listing a new key before an existing key whose value changes"),
+ "C08-f": ("update guard skipped when no attribute KEY disappears (values not compared)", "update that keeps a key and changes its value under an active lease"),
+ "C09-e": ("VerifyOptions (CurrentTime) built once at gateway start", "certificate that expires while the gateway runs"),
+ "C09-f": ("HTTP layer takes the FIRST commonName, TLS layer verified the last", "certificate whose subject carries two commonName attributes"),
+ "C10-e": ("cross validation uses its own copy of the ingress rule (container port 80 counts as HTTP)", "global TCP expose with port 80 published as another port"),
+ "C10-f": ("'already accepted' fast path not invalidated by a chain update", "v1 accepted, chain update to v2, v1 re-submitted"),
+ "C11-e": ("err shadowed in the network-policy loop: a failed apply returns nil", "kube API failure on Get/Create/Update of a network policy"),
+ "C11-f": ("namespace hash input without separators: distinct leases share a namespace", "lease ids whose sequence digits concatenate identically"),
+ "C12-e": ("packer filters the reservation's own cached resource list in place", ">=2 nodes and a reservation that spills across a node boundary"),
+ "C12-f": ("a release removes every reservation of the order", "two outstanding reservations for one order"),
+ "C13-e": ("order monitor stops on ANY provider's bid-closed event for the order (no close-bid)", "a competitor's bid on the same order is closed while ours is open"),
+ "C13-f": ("start-up open-orders query moved to the background; catch-up creates a second monitor", "order-created event arrives while the start-up query is in flight"),
+ "C14-e": ("a manifest for a manager that is shutting down starts a fresh manager (old one's exit then unreserves)", "late manifest while the old manager waits for its monitor"),
+ "C14-f": ("hostnames of an updated manifest overwrite (not merge) the release list", "update that drops a hostname, then close"),
+ "C15-e": ("subscriber backlog as a growing circular queue: wrapped part lost when it grows while full", "backlog reaching 16/32/.. after a partial read"),
+ "C15-f": ("one goroutine per chain result in events.publishEvents", ">=2 results back to back on one subscription"),
+ "C16-e": ("payment close run on a CacheContext: its events are dropped with the cache's event manager", "close-bid is the first transaction to find the overdraft"),
+ "C16-f": ("OnBidLost goes through OnBidClosed: bid-closed events for bids that are only lost", "order with >=2 open bids when the lease is created"),
+ "C17-e": ("listing serial via an int64 fast path for <=8 bytes: serials in [2^63,2^64) listed negative", "serial 2^63 .. 2^64-1"),
+ "C17-f": ("validation cache keyed by certificate bytes only: owner check skipped on a hit", "B submits A's certificate after A's was validated in the same process"),
+ "C19-e": ("validation runs on a coalesced view of equal resource entries (counts summed in uint32)", ">20 equal entries, or counts that wrap"),
+ "C19-f": ("deployment keeper caches decoded params; governance writes the subspace directly", "minimum deposit raised by governance, then a create below the new minimum"),
+ "C20-e": ("idle stop timer now starts; stopping it drains a channel that never fires", "manager idle at some point, later a lease or submission"),
+ "C20-f": ("duplicate manifests skipped across the whole version history (no move to the end)", "versions A, B, then A again"),
 }
 
 def main():
     rows = []
     os.makedirs(DST, exist_ok=True)
-    for d in sorted(glob.glob(SRC + "/C*/[abcd]")):
+    for d in sorted(glob.glob(SRC + "/C*/[abcdef]")):
         prop, var = d.split("/")[-2:]
         key = f"{prop}-{var}"
         res = os.path.join(d, "RESULT.txt")
